@@ -1,7 +1,9 @@
 import LenaModel.DriverUtil
 import LenaModel.Model.C08
+import LenaModel.Model.C08Spec
 /-! Model driver for C08.  Values: a scalar is the JSON scalar (`null`, booleans, integers, strings), a
-dictionary is `{"d":[[key,value],…]}` in insertion order.  Exceptions: `{"e":"LenaKeyError"}` etc.,
+dictionary is `{"d":[[key,value],…]}` in insertion order, a list `{"L":[…]}`, a float `{"f":repr}`, an object
+of another class `{"o":str|null}` (its `str()`, `null` when that raises).  Exceptions: `{"e":"LenaKeyError"}` etc.,
 `{"e":"unmodelled"}` when the model declines.  Requests:
   {"op":"get","d":V,"keys":[K,…],"default":V?}   K = {"s":str} | {"l":[V,…]} | {"k":V} | {"o":0}
         -> {"r":[{"r":V}|{"e":..},…]}
@@ -34,9 +36,12 @@ partial def toVal (j : Json) : Option Val :=
   | .str s => some (.leaf (.str s))
   | .num _ => (int? j).map (fun i => .leaf (.int i))
   | .obj _ =>
-    match arr? (getD j "d") with
-    | some a => (a.toList.mapM toEntry).map Val.dict
-    | none => none
+    match arr? (getD j "d"), arr? (getD j "L"), str? (getD j "f"), j.getObjVal? "o" with
+    | some a, _, _, _ => (a.toList.mapM toEntry).map Val.dict
+    | _, some a, _, _ => (a.toList.mapM toVal).map Val.list
+    | _, _, some r, _ => some (.leaf (.float r))
+    | _, _, _, .ok o => some (.leaf (.obj (str? o)))
+    | _, _, _, _ => none
   | _ => none
 where toEntry (j : Json) : Option (String × Val) :=
   match arr? j with
@@ -51,6 +56,9 @@ partial def ofVal : Val → Json
   | .leaf (.bool b) => Json.bool b
   | .leaf (.int i) => ofInt i
   | .leaf (.str s) => Json.str s
+  | .leaf (.float r) => Json.mkObj [("f", Json.str r)]
+  | .leaf (.obj o) => Json.mkObj [("o", match o with | some s => Json.str s | none => Json.null)]
+  | .list xs => Json.mkObj [("L", Json.arr (xs.map ofVal).toArray)]
   | .dict es => Json.mkObj [("d", Json.arr (es.map (fun (k, v) => Json.arr #[Json.str k, ofVal v])).toArray)]
 
 def excName : Exc → String
@@ -59,6 +67,8 @@ def excName : Exc → String
   | .lenaKeyError => "LenaKeyError"
   | .valueError => "Other:ValueError"
   | .indexError => "Other:IndexError"
+  | .lenaAttributeError => "LenaAttributeError"
+  | .attributeError => "Other:AttributeError"
   | .unmodelled => "unmodelled"
 
 def ofExc (e : Exc) : Json := Json.mkObj [("e", Json.str (excName e))]
@@ -122,19 +132,10 @@ def pathsOfLen (alpha : List String) : Nat → List (List String)
 def pathsUpTo (alpha : List String) (n : Nat) : List (List String) :=
   (List.range (n + 1)).flatMap (pathsOfLen alpha)
 
-/-- `{k1: {k2: … {kn: v}}}` -/
-def nestD : List String → Val → Val
-  | [], v => v
-  | k :: r, v => .dict [(k, nestD r v)]
-
-def entriesOf : Val → Entries
-  | .dict es => es
-  | .leaf _ => []
-
 /-- the notations of a key path, as the harness builds them -/
 def variants (p : List String) : List KeyArg :=
-  [.str (String.intercalate "." p), .list (p.map (fun k => .leaf (.str k))), .dict (entriesOf (nestD p (.dict [])))] ++
-  (if p.length ≥ 2 then [.dict (entriesOf (nestD p.dropLast (.leaf (.str (p.getLastD "")))))] else [])
+  [.str (joinDots p), .list (p.map (fun k => .leaf (.str k))), .dict (pathEntries p (.dict []))] ++
+  (if p.length ≥ 2 then [.dict (pathEntries p.dropLast (.leaf (.str (p.getLastD ""))))] else [])
 
 def codeOf (ref : Option Val) (dflt : Val) : Except Exc Val → String
   | .error e => excName e
@@ -148,35 +149,95 @@ def addrLine (d : Val) (dflt : Val) (p : List String) : String :=
   let ref := getPath d p
   let gets := (variants p).flatMap (fun k => [codeOf ref dflt (getRec d k none), codeOf ref dflt (getRec d k (some dflt))])
   let c := match d with
-    | .dict es => if contains es (String.intercalate "." p) then "T" else "F"
+    | .dict es => if contains es (joinDots p) then "T" else "F"
     | .leaf _ => "?"
   let pr := match ref with
     | some v => (ofVal v).compress
     | none => "-"
   String.intercalate "|" (gets ++ [c, pr])
 
-def handleUC (j : Json) : Json :=
-  let a := getD j "args"
+def parseUCArgs (a : Json) : Option UCArgs :=
   let sub : Option (Option String) :=
     let s := getD a "subcontext"
-    if s.isNull then some none else (str? s).map some
+    match str? s with
+    | some x => some (some x)
+    | none => some none
   let upd : Option UpdArg :=
     match (getD a "update").getObjVal? "s", (getD a "update").getObjVal? "v" with
     | .ok s, _ => (str? s).map UpdArg.str
     | _, .ok v => (toVal v).map UpdArg.simple
     | _, _ => none
   let dflt := optVal a "default"
-  match sub, upd, dflt, (arr? (getD j "items")).bind (fun x => x.toList.mapM toItem) with
-  | some sub, some upd, dflt, some items =>
-    if isBad dflt then err "uc: bad default" else
-    let args : UCArgs := UCArgs.mk sub upd (boolD a "value" false) dflt.join (boolD a "skip" false)
-      (boolD a "raise" false) (boolD a "recursively" true)
+  match sub, upd with
+  | some sub, some upd =>
+    if isBad dflt then none else
+    some (UCArgs.mk sub upd (boolD a "value" false) dflt.join (boolD a "skip" false)
+      (boolD a "raise" false) (boolD a "recursively" true))
+  | _, _ => none
+
+def toPiece (j : Json) : Option Piece :=
+  match arr? j with
+  | some #[k, x] =>
+    match str? k with
+    | some "lit" => (str? x).map Piece.lit
+    | some "field" => (strList? x).map Piece.field
+    | _ => none
+  | _ => none
+
+def keyOpt (j : Json) : Option String := str? j
+
+/-- the specification-side definitions, executed: see `Model/C08Spec.lean` -/
+def handleSpec (j : Json) : Json :=
+  match str? (getD j "what") with
+  | some "wfpath" =>
+    match (arr? (getD j "paths")).bind (fun a => a.toList.mapM strList?) with
+    | some ps => Json.mkObj [("r", ofList (fun p => Json.bool (wfPathB p)) ps)]
+    | none => err "bad wfpath args"
+  | some "wf" =>
+    match valList? (getD j "vs") with
+    | some vs => Json.mkObj [("r", ofList (fun v => Json.bool (valWFB v)) vs)]
+    | none => err "bad wf args"
+  | some "template" =>
+    match (arr? (getD j "pieces")).bind (fun a => a.toList.mapM toPiece), valList? (getD j "ctxs") with
+    | some ps, some ctxs =>
+      Json.mkObj [("template", Json.str (templateString ps)), ("wf", Json.bool (ps.all pieceWFB)),
+        ("ctxs", ofList (fun c => match c with
+          | .dict es => Json.mkObj [("present", Json.bool (fieldsPresent es ps)), ("str", Json.bool (strFieldsB es ps)),
+                                    ("text", Json.str (renderSpec es ps))]
+          | _ => Json.null) ctxs)]
+    | _, _ => err "bad template args"
+  | some "illformed" =>
+    match parseUCArgs (getD j "args") with
+    | some a => Json.mkObj [("r", Json.bool (illFormedB a)), ("n", ofNat (nActive a))]
+    | none => err "bad illformed args"
+  | some "nottemplate" =>
+    match valList? (getD j "vs") with
+    | some vs => Json.mkObj [("r", ofList (fun v => Json.bool (notTemplateB v)) vs)]
+    | none => err "bad nottemplate args"
+  | some "ucset" =>
+    match toVal (getD j "d"), strList? (getD j "path"), toVal (getD j "u") with
+    | some (.dict d), some p, some u =>
+      Json.mkObj [("rec", ofVal (.dict (ucSet true d p u))), ("plain", ofVal (.dict (ucSet false d p u))),
+        ("del", ofVal (.dict (delPath d p))), ("nest", ofVal (nestPath p u)),
+        ("sub", ofVal (.dict (match p with | k :: _ => subDict d k | [] => [])))]
+    | _, _, _ => err "bad ucset args"
+  | some "str" =>
+    match valList? (getD j "vs") with
+    | some vs => Json.mkObj [("r", ofList (fun v => match pyStrVal v with
+        | some s => Json.str s
+        | none => Json.null) vs)]
+    | none => err "bad str args"
+  | _ => err "unknown spec"
+
+def handleUC (j : Json) : Json :=
+  match parseUCArgs (getD j "args"), (arr? (getD j "items")).bind (fun x => x.toList.mapM toItem) with
+  | some args, some items =>
     match ucInit args with
     | .error e => Json.mkObj [("init", Json.str (excName e))]
     | .ok uc =>
       Json.mkObj [("init", "ok"),
         ("calls", ofList (fun it => ofRes ofItem (ucCall uc it)) items)]
-  | _, _, _, _ => err "bad uc args"
+  | _, _ => err "bad uc args"
 
 def handle (j : Json) : Json :=
   match str? (getD j "op") with
@@ -225,8 +286,16 @@ def handle (j : Json) : Json :=
     | _, _ => err "bad format args"
   | some "to_string" =>
     match valList? (getD j "vs") with
-    | some vs => Json.mkObj [("r", ofList (fun v => Json.str (toStringV v)) vs)]
+    | some vs => Json.mkObj [("r", ofList (fun v => ofRes (fun t => Json.str (String.join (t.map Tok.spell))) (toStringE v)) vs)]
     | none => err "bad to_string args"
+  | some "spec" => handleSpec j
+  | some "context" =>
+    match (arr? (getD j "items")).bind (fun x => x.toList.mapM toItem), strList? (getD j "names") with
+    | some items, some names =>
+      Json.mkObj [("calls", ofList (fun it => ofRes ofItem (contextCall it)) items),
+        ("attrs", ofList (fun (it : Item Unit) => ofList (fun n => ofRes ofVal (contextGetAttr it.context n)) names) items),
+        ("reprs", ofList (fun (it : Item Unit) => ofRes Json.str (contextRepr it.context)) items)]
+    | _, _ => err "bad context args"
   | some "pyeq" =>
     match valList? (getD j "vs") with
     | some vs => Json.mkObj [("r", ofList (fun a => ofList (fun b => Json.bool (pyEq a b)) vs) vs)]
@@ -243,26 +312,29 @@ def handle (j : Json) : Json :=
       if isBad v then err "update_recursively: bad value" else ofRes ofVal (updateRecursively d other v.join)
     | _, _, _ => err "bad update_recursively args"
   | some "fuw" =>
-    match str? (getD j "key"), toVal (getD j "value"), toVal (getD j "d") with
-    | some k, some v, some d => ofRes ofVal (formatUpdateWith k v d)
-    | _, _, _ => err "bad fuw args"
+    match toVal (getD j "value"), toVal (getD j "d") with
+    | some v, some d => ofRes ofVal (formatUpdateWith (keyOpt (getD j "key")) v d)
+    | _, _ => err "bad fuw args"
   | some "uc" => handleUC j
   | some "dc" =>
     let k := getD j "key"
     let key : Option DelKey :=
-      match k.getObjVal? "s", k.getObjVal? "l" with
-      | .ok s, _ => (str? s).map DelKey.str
-      | _, .ok l => (strList? l).map DelKey.list
-      | _, _ => none
+      match k.getObjVal? "s", k.getObjVal? "l", k.getObjVal? "o" with
+      | .ok s, _, _ => (str? s).map DelKey.str
+      | _, .ok l, _ => (strList? l).map DelKey.list
+      | _, _, .ok _ => some DelKey.other
+      | _, _, _ => none
     match key, (arr? (getD j "items")).bind (fun x => x.toList.mapM toItem) with
     | some key, some items =>
-      let keyl := dcInit key
-      Json.mkObj [("calls", ofList (fun it => Json.mkObj [("r", ofItem (dcCall keyl it))]) items)]
+      match dcInit key with
+      | .error e => Json.mkObj [("init", Json.str (excName e))]
+      | .ok keyl =>
+        Json.mkObj [("init", "ok"), ("calls", ofList (fun it => Json.mkObj [("r", ofItem (dcCall keyl it))]) items)]
     | _, _ => err "bad dc args"
   | some "setctx" =>
-    match str? (getD j "key"), toVal (getD j "value"), valList? (getD j "ctxs") with
-    | some k, some v, some ctxs =>
-      match setCtxInit k v with
+    match toVal (getD j "value"), valList? (getD j "ctxs") with
+    | some v, some ctxs =>
+      match setCtxInit (keyOpt (getD j "key")) v with
       | .error e => Json.mkObj [("init", Json.str (excName e))]
       | .ok s0 =>
         let (_, steps) := ctxs.foldl (fun (acc : SetCtx × List Json) c =>
@@ -271,7 +343,7 @@ def handle (j : Json) : Json :=
           (s', out ++ [Json.mkObj [("set", Json.str (match e with | none => "ok" | some e => excName e)),
                                    ("get", ofRes ofVal s'.getContext)]])) (s0, [])
         Json.mkObj [("init", "ok"), ("get0", ofRes ofVal s0.getContext), ("steps", Json.arr steps.toArray)]
-    | _, _, _ => err "bad setctx args"
+    | _, _ => err "bad setctx args"
   | some "jinja" =>
     match str? (getD j "t") with
     | some t =>
